@@ -900,6 +900,8 @@ structure C09St where
   got : List (Nat × Nat × Nat) := []    -- (host, slot, id)
   everDropped : List (Nat × Nat) := []  -- (host, port) sockets that were dropped at some point
   blindReads : List (Nat × Nat) := []   -- sockets that consumed a datagram with a buffer too small to show its id
+  emptySent : List (Nat × Nat) := []     -- (destination host, step) empty datagrams accepted for the probe port 9009
+  emptyGot : List Nat := []              -- hosts whose probe socket received an empty datagram (one entry each)
   step : Nat := 0
   res : OResult := {}
 
@@ -927,7 +929,7 @@ def c09Targets (σ : C09Send) (k : C09Sock) : Bool :=
    else if dip.startsWith "h" then k.host == hostTok dip && k.bindIp == "any"
    else false)
 
-def c09Recv (st : C09St) (ln : Nat) (h s buflen : Nat) (obs : List String) : C09St :=
+def c09Recv (lat cap : Nat) (st : C09St) (ln : Nat) (h s buflen : Nat) (obs : List String) : C09St :=
   match obs with
   | ["ok", n, origin, hex] =>
     let got := if hex == "-" then "" else hex
@@ -937,6 +939,11 @@ def c09Recv (st : C09St) (ln : Nat) (h s buflen : Nat) (obs : List String) : C09
     | some k =>
       -- the id is only visible with a buffer of ≥ 2 bytes
       if buflen < 2 then { st with blindReads := st.blindReads ++ [(h, s)] } else
+      if got == "" && n == 0 && k.port == 9009 then
+        -- an empty datagram on the probe port: at most as many as were sent there
+        if (st.emptyGot.filter (· == h)).length < (st.emptySent.filter (·.1 == h)).length then { st with emptyGot := st.emptyGot ++ [h] }
+        else st.fail ln "received an empty datagram that was never sent"
+      else
       match msgId got with
       | none => st.fail ln "received a datagram that was never sent (no id)"
       | some id =>
@@ -949,9 +956,21 @@ def c09Recv (st : C09St) (ln : Nat) (h s buflen : Nat) (obs : List String) : C09
           let st := if !c09Targets σ k then st.fail ln s!"datagram {id} sent to {σ.dst} was delivered to h{h} port {k.port} (bind {k.bindIp}) which it does not target" else st
           let st := if st.got.contains (h, s, id) then st.fail ln s!"datagram {id} delivered twice to the same socket" else st
           { st with got := st.got ++ [(h, s, id)] }
+  | ["err", "wouldblock"] =>
+    (match c09Sock st h s with
+     | some k =>
+       -- the probe socket's queue is empty: every empty datagram sent to it long enough ago must have arrived
+       -- (three probe datagrams: only when the queue certainly had room for all of them)
+       if k.port == 9009 && cap ≥ 3 then
+         let due := (st.emptySent.filter (fun e => e.1 == h && e.2 + lat + 1 ≤ st.step)).length
+         if (st.emptyGot.filter (· == h)).length < due then
+           st.fail ln s!"a zero-length datagram sent to h{h}:9009 was never delivered"
+         else st
+       else st
+     | none => st)
   | _ => st
 
-def c09Step (st : C09St) (x : Nat × List String × List String) : C09St :=
+def c09Step (lat cap : Nat) (st : C09St) (x : Nat × List String × List String) : C09St :=
   let (ln, op, obs) := x
   match op with
   | ["ctl", "step"] => { st with step := st.step + 1 }
@@ -1009,18 +1028,24 @@ def c09Step (st : C09St) (x : Nat × List String × List String) : C09St :=
       match msgId (if hex == "-" then "" else hex) with
       | some id => { st with sends := st.sends ++ [{ id := id, srcHost := hh, origin := origin, dst := dst, payload := hex,
                                                        bcastOn := k.bcast, mloop := mloop, members := members, step := st.step }] }
-      | none => st
+      | none =>
+        -- an empty datagram for the probe port: to another host's address, or to this host over loopback
+        if hex == "-" && dport == 9009 then
+          let d := if dip == "lo" then some hh else addrHost dst
+          match d with | some x => { st with emptySent := st.emptySent ++ [(x, st.step)] } | none => st
+        else st
     | some k, ["err", "permissiondenied"] =>
       if ipOf dst == "bc" && k.bcast then st.fail ln "broadcast send refused although SO_BROADCAST is enabled" else st
     | _, _ => st
-  | [h, "udp_tryrecv", s, n] => c09Recv st ln (hostTok h) (slotTok s) (n.toNat?.getD 0) obs
-  | [h, "udp_recv", s, n] => c09Recv st ln (hostTok h) (slotTok s) (n.toNat?.getD 0) obs
+  | [h, "udp_tryrecv", s, n] => c09Recv lat cap st ln (hostTok h) (slotTok s) (n.toNat?.getD 0) obs
+  | [h, "udp_recv", s, n] => c09Recv lat cap st ln (hostTok h) (slotTok s) (n.toNat?.getD 0) obs
   | _ => st
 
 def oracleC09 (lines : List String) : OResult :=
   let cfgT := match lines.find? (·.startsWith "CFG ") with | some l => toks l | none => []
   let cap := kvNat cfgT "udpcap" 64
-  let st := (opObsPairs lines).foldl c09Step {}
+  let lat := kvNat cfgT "maxlat_ms" 2 / (max 1 (kvNat cfgT "tick_ms" 1)) + 2
+  let st := (opObsPairs lines).foldl (c09Step lat cap) {}
   let drained := lines.any (· == "OP ctl mark drained")
   let res := st.res
   -- exactly once on a healthy link within capacity: plain unicast to a socket that existed before the
@@ -1121,7 +1146,7 @@ structure C04St where
   down : List Nat := []
   crashStep : List (Nat × Nat) := []         -- host ↦ step of its latest crash
   tickers : List (Nat × Nat) := []           -- host ↦ live background tasks with a drop guard
-  inCrash : Option Nat := none               -- between `OP ctl crash` / `bounce` and its OBS
+  inCrash : List Nat := []                   -- hosts being torn down between `OP ctl crash` / `bounce` (or `…_set`) and its OBS
   guardDrops : Nat := 0
   starts : List (Nat × Nat) := []            -- host ↦ `EV start` seen in the current incarnation
   stepsSince : List (Nat × Nat) := []        -- host ↦ steps since its incarnation began
@@ -1156,13 +1181,15 @@ def c04Line (st : C04St) (ln : Nat) (l : String) : C04St :=
     { st with step := st.step + 1, curOp := t, stepsSince := st.stepsSince.map (fun p => (p.1, p.2 + 1)) }
   | ["OP", "ctl", "crash", h] =>
     let x := hostTok h
-    { st with curOp := t, inCrash := some x, guardDrops := 0 }
+    { st with curOp := t, inCrash := [x], guardDrops := 0 }
   | ["OP", "ctl", "bounce", h] =>
     let x := hostTok h
     -- exactly one start per finished incarnation that ran at least one step
     let st := if assocGet st.stepsSince x ≥ 1 && !st.down.contains x && assocGet st.starts x != 1 then
         st.fail ln s!"h{x}: software was started {assocGet st.starts x} times in one incarnation" else st
-    { st with curOp := t, inCrash := some x, guardDrops := 0 }
+    { st with curOp := t, inCrash := [x], guardDrops := 0 }
+  | ["OP", "ctl", "crash_set", hs] =>
+    { st with curOp := t, inCrash := (hs.splitOn ",").map hostTok, guardDrops := 0 }
   | "OP" :: "ctl" :: _ => { st with curOp := t }
   | "OP" :: h :: rest =>
     let x := hostTok h
@@ -1185,7 +1212,7 @@ def c04Line (st : C04St) (ln : Nat) (l : String) : C04St :=
     { st with starts := assocSet st.starts x (assocGet st.starts x + 1) }
   | ["EV", "send", src, dst, proto] =>
     let st := match addrHost src with
-      | some x => if st.down.contains x && st.inCrash != some x then st.fail ln s!"crashed host h{x} sent {proto} to {dst}" else st
+      | some x => if st.down.contains x && !st.inCrash.contains x then st.fail ln s!"crashed host h{x} sent {proto} to {dst}" else st
       | none => st
     -- remember the source address of a connect's SYN
     match st.curOp, proto with
@@ -1209,6 +1236,7 @@ def c04Line (st : C04St) (ln : Nat) (l : String) : C04St :=
     match addrHost dst with
     | some x => { st with queuedSyn := st.queuedSyn ++ [(src, x)] }
     | none => st
+  | "OBS" :: "step" :: _ => { st with curOp := [] }
   | "OBS" :: obs =>
     match st.curOp with
     | ["OP", "ctl", "crash", h] =>
@@ -1218,10 +1246,22 @@ def c04Line (st : C04St) (ln : Nat) (l : String) : C04St :=
           st.fail ln s!"crash of h{x} dropped {st.guardDrops} of its {assocGet st.tickers x} background tasks" else st
       let st := if wasUp && assocGet st.stepsSince x ≥ 1 && assocGet st.starts x != 1 then
           st.fail ln s!"h{x}: software was started {assocGet st.starts x} times in one incarnation" else st
-      { st with down := if wasUp then st.down ++ [x] else st.down, inCrash := none, curOp := [],
+      { st with down := if wasUp then st.down ++ [x] else st.down, inCrash := [], curOp := [],
                 members := st.members.filter (·.1 != x),
                 tickers := assocSet st.tickers x 0,
                 crashStep := if wasUp then assocSet st.crashStep x st.step else st.crashStep }
+    | ["OP", "ctl", "crash_set", hs] =>
+      -- `Sim::crash(<several hosts>)`: every selected host that was up is down afterwards, whatever the
+      -- state of the hosts selected before it
+      let xs := (hs.splitOn ",").map hostTok
+      let up := xs.filter (fun x => !st.down.contains x)
+      let expected := (up.map (assocGet st.tickers)).sum
+      let st := if st.guardDrops != expected then
+          st.fail ln s!"crash of hosts {xs} dropped {st.guardDrops} of their {expected} background tasks" else st
+      { st with down := st.down ++ up, inCrash := [], curOp := [],
+                members := st.members.filter (fun m => !up.contains m.1),
+                tickers := up.foldl (fun t x => assocSet t x 0) st.tickers,
+                crashStep := up.foldl (fun c x => assocSet c x st.step) st.crashStep }
     | ["OP", "ctl", "bounce", h] =>
       let x := hostTok h
       let wasDown := st.down.contains x
@@ -1230,7 +1270,7 @@ def c04Line (st : C04St) (ln : Nat) (l : String) : C04St :=
       -- what had matured by now reached the host while it was down
       let late := (st.pendingLate.filter (fun q => q.1 == x && q.2.2 ≤ st.step)).map (fun q => (q.1, q.2.1))
       let lateC := (st.pendingConn.filter (fun q => q.2.1 == x && q.2.2 ≤ st.step)).map (fun q => (q.1, q.2.1))
-      { st with down := st.down.filter (· != x), inCrash := none, curOp := [], tickers := assocSet st.tickers x 0,
+      { st with down := st.down.filter (· != x), inCrash := [], curOp := [], tickers := assocSet st.tickers x 0,
                 members := st.members.filter (·.1 != x),
                 starts := assocSet st.starts x 0, stepsSince := assocSet st.stepsSince x 0,
                 lateIds := st.lateIds ++ late, lateConn := st.lateConn ++ lateC,
